@@ -101,8 +101,14 @@ def run(chk, repo):
     # ---------------------------------------------------------------- P2 (a) / P4 header transformers
     header_sentinels(chk, repo, L)
     # ---------------------------------------------------------------- P3
-    for cls in ("AsciiInteger", "AsciiFloat", "PaddedString", "StripNullBytes", "AsciiComplex"):
-        check_adapter(chk, "C20-P3v", repo, L.ev, (DATATYPES, cls), blank_rule="C20-P3")
+    try:
+        for cls in ("AsciiInteger", "AsciiFloat", "PaddedString", "StripNullBytes", "AsciiComplex"):
+            check_adapter(chk, "C20-P3v", repo, L.ev, (DATATYPES, cls), blank_rule="C20-P3")
+    finally:
+        _drop_value_rules(chk)
+
+
+def _drop_value_rules(chk):
     chk.rules.pop("C20-P3v", None)
     chk.obligations[:] = [o for o in chk.obligations if o["rule"] != "C20-P3v"]
     # value semantics of filled fields belong to C03/C04, not to this property
